@@ -509,6 +509,12 @@ namespace raptor
                 }
             }
         }
+
+        // keep the arrays as long as the matrix has entries: sort() and
+        // transpose() work on the whole arrays
+        idx1.resize(nnz);
+        idx2.resize(nnz);
+        resize_data(nnz);
     }
 
     COOMatrix* transpose();
